@@ -339,7 +339,7 @@ fn run_stream(prop: &Property, sub: &Sub, tier: Tier, seed: u64, w: usize, slot:
     let failed = std::cell::Cell::new(false);
     let res_cell = RefCell::new(&mut res);
 
-    let mut body = |case: &[u8]| -> Result<(), String> {
+    let body = |case: &[u8]| -> Result<(), String> {
         {
             let mut s = slot.lock().unwrap();
             s.started = Some(Instant::now());
